@@ -142,13 +142,11 @@ def run(chk):
             case(opener * depth, "deep-open", correspond=depth <= 40)
             if depth <= 40 or depth >= 1000:
                 case(opener * depth + "a" + closer * depth, "deep", correspond=depth <= 40)
-    # long flat inputs (termination, linear fuel)
+    # long flat inputs (termination in time linear in the input on the real code; the extracted model keeps
+    # unary lengths and is only run on the shorter ones)
     for n in ((2000, 20000, 200000) if thorough else (2000, 20000)):
-        case("a " * n, "long")
-        case("(" + "x " * n + ")", "long")
-        case('"' + "y" * n + '"', "long")
-        case(";" + "z" * n, "long")
-        case("#[[" + "w" * n, "long")
+        for t in ("a " * n, "(" + "x " * n + ")", '"' + "y" * n + '"', ";" + "z" * n, "#[[" + "w" * n, "'" + "(a) " * n):
+            case(t, "long", correspond=n <= 2000)
     if model:
         model.close()
     chk.extra["oracle_queries"] = oracles.queries
